@@ -11,6 +11,8 @@ import Bng.Model.Antispoof
     bind6 m=<mac> a=<ip6|->           => ok [b=<key>:<val>]
     unbind m=<mac>                    => ok [b-=<key>]
     range <ip4>/<len>                 => ok [r=<key>:<val>] [r-=<key>]
+    rangemask <ip4> <mask4>           => ok [r=…] | err IPv4_prefix_mask_required
+    (bind/bind6/unbind with a MAC that is not 6 bytes => err invalid_MAC_address)
     rawbind <key> <val>               => ok | err size
     rawcfg <val>                      => ok | err size
     rawrange <key> <val>              => ok | err size | err kernel
@@ -124,13 +126,19 @@ def checkDefault (st : St) (what : String) : List (String × String × String) :
   if st.iCfg.headD 0 = st.sDefault then [] else
     [("binding", "none", s!"{what}: default mode asked {st.sDefault.toNat}, the program sees {(st.iCfg.headD 0).toNat}")]
 
-/-- strip up to two VLAN tags: (tagged?, ethertype, offset of the payload) -/
+/-- Where the IP header really is: strip up to two VLAN tags (TPIDs 0x8100, 0x88a8, 0x9100, 0x9200) and a PPPoE
+    session header (0x8864 + PPP protocol 0x0021 / 0x0057).  Returns (encapsulated?, ethertype of the payload,
+    offset of the payload). -/
 def l3 (frame : Bytes) : Bool × Bytes × Nat :=
   let et := fun (off : Nat) => (frame.drop off).take 2
-  let isTag := fun (e : Bytes) => e = [0x81, 0x00] ∨ e = [0x88, 0xa8]
-  if isTag (et 12) then
-    if isTag (et 16) then (true, et 20, 22) else (true, et 16, 18)
-  else (false, et 12, 14)
+  let isTag := fun (e : Bytes) => e = [0x81, 0x00] ∨ e = [0x88, 0xa8] ∨ e = [0x91, 0x00] ∨ e = [0x92, 0x00]
+  let (tagged, off) : Bool × Nat :=
+    if isTag (et 12) then (if isTag (et 16) then (true, 20) else (true, 16)) else (false, 12)
+  if et off = [0x88, 0x64] then
+    let ppp := et (off + 8)
+    let inner : Bytes := if ppp = [0x00, 0x21] then [0x08, 0x00] else if ppp = [0x00, 0x57] then [0x86, 0xdd] else ppp
+    (true, inner, off + 10)
+  else (tagged, et off, off + 2)
 
 /-- verdicts for one observed frame -/
 def observeFrame (st : St) (frame : Bytes) (ret : Nat) : List (String × String × String) :=
@@ -142,7 +150,8 @@ def observeFrame (st : St) (frame : Bytes) (ret : Nat) : List (String × String 
   let mode := match sb with | some b => b.mode | none => st.sDefault
   let (tagged, et, off) := l3 frame
   let fwd := ret = TC_ACT_OK
-  let tagClause := if tagged then "D51" else "none"
+  -- D51 = an encapsulated frame FORWARDED although it should have been dropped (nothing else)
+  let tagClause := fun (should fwd : Bool) => if tagged ∧ fwd ∧ !should then "D51" else "none"
   -- the source address, if the frame has a complete IP header
   let src4 := if et = [0x08, 0x00] ∧ frame.length ≥ off + 20 then some ((frame.drop (off + 12)).take 4) else none
   let src6 := if et = [0x86, 0xdd] ∧ frame.length ≥ off + 40 then some ((frame.drop (off + 8)).take 16) else none
@@ -158,16 +167,16 @@ def observeFrame (st : St) (frame : Bytes) (ret : Nat) : List (String × String 
       | _, some _ => sb.bind (·.v6)
       | _, _ => none
     let src := (src4.getD (src6.getD []))
-    let should := bound = some src
+    let should : Bool := bound = some src
     if should = fwd then [] else
-      [("strict", tagClause,
+      [("strict", tagClause should fwd,
         s!"strict for {hex mac} bound [{match bound with | some a => hex a | none => "-"}] source {hex src}: {if fwd then "forwarded" else "dropped"}")]
   else if mode = LOOSE then
     match src4, src6 with
     | some s, _ =>
-      let should := st.sNets.any fun (n, l) => inNet s n l
+      let should : Bool := st.sNets.any fun (n, l) => inNet s n l
       if should = fwd then [] else
-        [("loose", tagClause, s!"loose for {hex mac} source {hex s} {if should then "in" else "outside"} the allowed ranges: {if fwd then "forwarded" else "dropped"}")]
+        [("loose", tagClause should fwd, s!"loose for {hex mac} source {hex s} {if should then "in" else "outside"} the allowed ranges: {if fwd then "forwarded" else "dropped"}")]
     | _, some s =>
       -- no IPv6 range can be configured: no IPv6 source lies in an allowed range
       if fwd then
@@ -184,6 +193,10 @@ def parseMode (s : String) : Option UInt8 :=
 def step (st : St) (toks : List String) (impl : String) : St × LineResult :=
   let itoks := splitTokens impl
   let ok := itoks.head? == some "ok"
+  -- a call the manager must refuse: it must neither succeed nor crash
+  let refused : List (String × String × String) :=
+    if itoks.head? == some "err" then [] else
+      [("binding", "none", s!"the manager must refuse this call, it answered: {impl}")]
   match toks with
   | ["new", n] =>
     match parseMode n with
@@ -202,8 +215,12 @@ def step (st : St) (toks : List String) (impl : String) : St × LineResult :=
     match parseMode n with
     | some n =>
       let (g', m') := setMode st.mgr st.maps n
-      let st1 := applyReport { st with mgr := g', maps := m', sMode := n, sDefault := n } itoks
-      (st1, { modelObs := "ok" ++ cfgDiff st.maps.config m'.config, viols := if ok then checkDefault st1 "setmode" else [] })
+      -- spec: the mode set is the mode in force for EVERY MAC, bound or not
+      let sb := st.sBinds.map fun e => (e.1, { e.2 with mode := n })
+      let st1 := applyReport { st with mgr := g', maps := m', sMode := n, sDefault := n, sBinds := sb } itoks
+      let vb := (AMap.keys st1.sBinds).eraseDups.flatMap fun mac => checkBinding st1 mac "SetMode"
+      (st1, { modelObs := "ok" ++ diffMaps "b" st.maps.bindings m'.bindings ++ cfgDiff st.maps.config m'.config,
+              viols := if ok then checkDefault st1 "setmode" ++ vb else [] })
     | none => (st, { modelObs := "badop" })
   | ["bind", m, a] =>
     match (kvTok m).bind (fun (k, v) => if k == "m" then parseHexBytes v else none), kvTok a with
@@ -211,9 +228,12 @@ def step (st : St) (toks : List String) (impl : String) : St × LineResult :=
       let ip : Option (Option Bytes) := if av == "-" then some none else (parseHexBytes av).map some
       match ip with
       | some ip =>
-        if mac.length ≠ 6 ∨ (ip.map (·.length)).getD 4 ≠ 4 then (st, { modelObs := "badop" }) else
+        if mac.length = 0 ∨ mac.length > 8 ∨ (ip.map (·.length)).getD 4 ≠ 4 then (st, { modelObs := "badop" }) else
+        if mac.length ≠ 6 then (st, { modelObs := "err invalid_MAC_address", viols := refused }) else
         let m' := addBinding st.mgr st.maps mac ip
-        let nb : SpecBind := { v4 := ip, v6 := none, mode := st.sMode }
+        -- spec: exactly what was written changes: the IPv4 address (and the mode); an IPv6 binding stays
+        let old := (AMap.lookup st.sBinds mac).getD {}
+        let nb : SpecBind := { old with v4 := ip, mode := st.sMode }
         let st0 : St := { st with maps := m', sBinds := AMap.insert st.sBinds mac nb }
         let st1 := applyReport st0 itoks
         (st1, { modelObs := "ok" ++ diffMaps "b" st.maps.bindings m'.bindings,
@@ -226,7 +246,8 @@ def step (st : St) (toks : List String) (impl : String) : St × LineResult :=
       let ip : Option (Option Bytes) := if av == "-" then some none else (parseHexBytes av).map some
       match ip with
       | some ip =>
-        if mac.length ≠ 6 ∨ (ip.map (·.length)).getD 16 ≠ 16 then (st, { modelObs := "badop" }) else
+        if mac.length = 0 ∨ mac.length > 8 ∨ (ip.map (·.length)).getD 16 ≠ 16 then (st, { modelObs := "badop" }) else
+        if mac.length ≠ 6 then (st, { modelObs := "err invalid_MAC_address", viols := refused }) else
         let m' := addBindingV6 st.mgr st.maps mac ip
         let old := (AMap.lookup st.sBinds mac).getD {}
         let nv6 : Option Bytes := match ip with | some a => some a | none => old.v6
@@ -239,7 +260,8 @@ def step (st : St) (toks : List String) (impl : String) : St × LineResult :=
   | ["unbind", m] =>
     match (kvTok m).bind (fun (k, v) => if k == "m" then parseHexBytes v else none) with
     | some mac =>
-      if mac.length ≠ 6 then (st, { modelObs := "badop" }) else
+      if mac.length = 0 ∨ mac.length > 8 then (st, { modelObs := "badop" }) else
+      if mac.length ≠ 6 then (st, { modelObs := "err invalid_MAC_address", viols := refused }) else
       let m' := removeBinding st.maps mac
       let st1 := applyReport { st with maps := m', sBinds := AMap.erase st.sBinds mac } itoks
       (st1, { modelObs := "ok" ++ diffMaps "b" st.maps.bindings m'.bindings,
@@ -260,6 +282,20 @@ def step (st : St) (toks : List String) (impl : String) : St × LineResult :=
                   [("binding", "none", s!"AddAllowedRange {hex ip}/{len}: no trie entry covers it as the program reads the key")] else [] })
       | _, _ => (st, { modelObs := "badop" })
     | _ => (st, { modelObs := "badop" })
+  | ["rangemask", a, mk] =>
+    match parseHexBytes a, parseHexBytes mk with
+    | some ip, some mask =>
+      if ip.length ≠ 4 ∨ mask.length ≠ 4 then (st, { modelObs := "badop" }) else
+      match maskLen mask with
+      | none => (st, { modelObs := "err IPv4_prefix_mask_required", viols := refused })
+      | some len =>
+        let m' := addAllowedRange st.maps ip len
+        let st1 := applyReport { st with maps := m', sNets := (ip, len) :: st.sNets } itoks
+        let covered := st1.iRanges.any fun (k, _) => prefixLen k = len ∧ prefixMatch len (k.drop 4) ip
+        (st1, { modelObs := "ok" ++ diffMaps "r" st.maps.ranges m'.ranges,
+                viols := if ok ∧ !covered then
+                  [("binding", "none", s!"AddAllowedRange {hex ip} mask {hex mask}: no trie entry covers it as the program reads the key")] else [] })
+    | _, _ => (st, { modelObs := "badop" })
   | ["rawbind", k, v] =>
     match parseHexBytes k, parseHexBytes v with
     | some kb, some vb =>
